@@ -3,10 +3,13 @@
 P="$1"; shift
 cd /repo && git status --short | grep -q . && { echo "/repo is dirty"; exit 2; }
 git -C /repo apply "$P" || exit 2
+# evidence/ and replays/ describe the unchanged tree: keep them out of reach of runs against a seeded change
+SAVE=$(mktemp -d); cp -a /verif/evidence "$SAVE/evidence"; cp -a /verif/replays "$SAVE/replays" 2>/dev/null
 for c in "$@"; do
   T="${TIER:-quick}"
   OUT=$(cd /verif && ./check $c $T 2>&1)
   echo "$c: exit=$? violations=$(echo "$OUT" | grep -c '^VIOLATION')  $(echo "$OUT" | grep -A1 '^VIOLATION' | grep -v '^VIOLATION' | grep -v '^--' | head -2 | cut -c1-220 | tr '\n' '|')"
 done
 git -C /repo checkout -- .
+rm -rf /verif/evidence /verif/replays; mv "$SAVE/evidence" /verif/evidence; [ -d "$SAVE/replays" ] && mv "$SAVE/replays" /verif/replays; rmdir "$SAVE" 2>/dev/null
 git -C /repo status --short | head -2
